@@ -11,6 +11,7 @@
                               u:<idhex>:<size>     UnTarIndex worker
                               p:<idhex>            sparse loadChunk
                               r:<idhex>:<nullidhex>:<nulldatahex>  readseeker loadChunk
+                              m:k:<idhex>:<objhex>  the world changes: backend k now holds that object
      objs   : ';'-separated   k:<idhex>:<objhex>   what backend k holds for that id
      acts   : ';'-separated   f:a                  active index of failover group f
      faults : ';'-separated   T:k:<idhex|*>:from:to:F[:arg]   T in G P N; the from..to-1 th
@@ -169,6 +170,11 @@ let run args =
           match Stdlib.String.split_on_char ':' e with
           | ["g"; i] ->
               let (r, w1) = get hh zc zd s (id_of_hex i) !w in w := w1; res_str zd r
+          | ["m"; k; i; o] ->
+              (* somebody else replaces the object of backend k for chunk i *)
+              let kk = int_of_string k in
+              w := w_store (nat_of_int kk) (id_of_hex i) (bytes_of_hex o) !w;
+              slots := (kk, Stdlib.String.lowercase_ascii i) :: !slots; "m"
           | ["x"; i; n] ->
               let (r, w1) = write_chunk hh zc zd s (id_of_hex i, nat_of_int (int_of_string n)) !w in w := w1; cons_str r
           | ["u"; i; n] ->
